@@ -65,6 +65,31 @@ func (ex *Exec) callVF(fr *frame, fn *ssa.Function, args []Value, site ssa.Instr
 		return sym.True
 	case "vfScheduled":
 		return sym.Bool(ex.schedOn())
+	case "vfYield":
+		if ex.schedOn() {
+			ex.yield()
+		}
+		return nil
+	case "vfSettle":
+		if ex.schedOn() {
+			ex.settle()
+		}
+		return nil
+	case "vfPace":
+		if ex.schedOn() {
+			switch args[0].(*sym.Term).SignedVal() {
+			case 1:
+				ex.yield()
+			case 2:
+				ex.settle()
+			}
+		}
+		return nil
+	case "vfSchedOrder":
+		if ex.sch != nil {
+			ex.sch.order = int(args[0].(*sym.Term).SignedVal())
+		}
+		return nil
 	case "vfAtomic":
 		saved := ex.sch
 		ex.sch = nil
